@@ -60,13 +60,17 @@ func init() {
 	v("Reach", func(ex *Exec, c *frame, fn *ssa.Function, a []Value) Value {
 		label := mustStr(a[0])
 		if _, seen := ex.reach[label]; !seen {
-			ex.reach[label] = nil
 			if !ex.replaying() && ex.eng.wantReachCex(label) {
-				if m, ok := ex.model(nil); ok {
-					cx := ex.buildCex(m)
-					cx.Label, cx.Kind = label, "reach"
-					ex.reach[label] = cx
+				// the first witness of a label is a verified model of the whole path condition
+				m, ok := ex.model(nil)
+				if !ok {
+					panic(pathEnd{"infeasible"})
 				}
+				cx := ex.buildCex(m)
+				cx.Label, cx.Kind = label, "reach"
+				ex.reach[label] = cx
+			} else {
+				ex.reach[label] = nil
 			}
 		}
 		return nil
@@ -118,6 +122,10 @@ func init() {
 		ex.mapOrderInsertion = a[0].(bool)
 		return nil
 	})
+	v("NoOrderLemma", func(ex *Exec, c *frame, fn *ssa.Function, a []Value) Value {
+		ex.noOrderLemma = a[0].(bool)
+		return nil
+	})
 	v("Bound", func(ex *Exec, c *frame, fn *ssa.Function, a []Value) Value {
 		ex.bounds[mustStr(a[0])] = showBound(a[1])
 		return nil
@@ -135,7 +143,72 @@ func init() {
 		}
 		panic(engineErr("IsNaN on %T", a[0]))
 	})
-	v("Ite", func(ex *Exec, c *frame, fn *ssa.Function, a []Value) Value { return a[0] })
+	// Possible(c): false iff c is false on this path by constant folding or by a literal already in the
+	// path condition (no solver call, no fork); natively it is c itself.
+	v("Possible", func(ex *Exec, c *frame, fn *ssa.Function, a []Value) Value {
+		switch cv := a[0].(type) {
+		case bool:
+			return cv
+		case *smt.Term:
+			if cv.S == "false" || ex.pcSet[smt.Not(cv).S] {
+				return false
+			}
+			return true
+		}
+		panic(engineErr("Possible on %T", a[0]))
+	})
+	v("IteBool", func(ex *Exec, c *frame, fn *ssa.Function, a []Value) Value {
+		return orV(andV(a[0], a[1]), andV(notV(a[0]), a[2]))
+	})
+	v("IteInt", func(ex *Exec, c *frame, fn *ssa.Function, a []Value) Value {
+		switch cv := a[0].(type) {
+		case bool:
+			if cv {
+				return a[1]
+			}
+			return a[2]
+		case *smt.Term:
+			return smt.Ite(cv, toTermAuto(a[1]), toTermAuto(a[2]))
+		}
+		panic(engineErr("IteInt cond %T", a[0]))
+	})
+	v("IteStr", func(ex *Exec, c *frame, fn *ssa.Function, a []Value) Value {
+		switch cv := a[0].(type) {
+		case bool:
+			if cv {
+				return a[1]
+			}
+			return a[2]
+		case *smt.Term:
+			x, y := toSym(a[1]), toSym(a[2])
+			n := len(x.Ch)
+			if len(y.Ch) > n {
+				n = len(y.Ch)
+			}
+			r := &SymStr{Len: smt.Ite(cv, x.Len, y.Len), Ch: make([]*smt.Term, n)}
+			for i := range r.Ch {
+				r.Ch[i] = smt.Ite(cv, x.at(i), y.at(i))
+			}
+			return r
+		}
+		panic(engineErr("IteStr cond %T", a[0]))
+	})
+	// SuffixFrom(s, n): s[n:] when len(s) >= n, "" otherwise (total)
+	v("SuffixFrom", func(ex *Exec, c *frame, fn *ssa.Function, a []Value) Value {
+		n := int(a[1].(int64))
+		if cs, ok := a[0].(string); ok {
+			if len(cs) < n {
+				return ""
+			}
+			return cs[n:]
+		}
+		s := toSym(a[0])
+		r := strSuffixFrom(s, n)
+		if _, isConst := constLen(r); !isConst {
+			r = &SymStr{Len: smt.Ite(smt.BVCmp("bvuge", s.Len, bv8(n)), r.Len, bv8(0)), Ch: r.Ch}
+		}
+		return r
+	})
 	v("And", func(ex *Exec, c *frame, fn *ssa.Function, a []Value) Value { return andV(a[0], a[1]) })
 	v("Or", func(ex *Exec, c *frame, fn *ssa.Function, a []Value) Value { return orV(a[0], a[1]) })
 	v("Not", func(ex *Exec, c *frame, fn *ssa.Function, a []Value) Value { return notV(a[0]) })
@@ -143,28 +216,13 @@ func init() {
 
 	// ---- std models ----
 	intercepts["strings.HasPrefix"] = func(ex *Exec, c *frame, fn *ssa.Function, a []Value) Value {
-		if s, ok := a[0].(string); ok {
-			if p, ok := a[1].(string); ok {
-				return strings.HasPrefix(s, p)
-			}
-		}
-		return smt.StrPrefixOf(toTermAuto(a[1]), toTermAuto(a[0]))
+		return strHasPrefix(a[0], a[1])
 	}
 	intercepts["strings.HasSuffix"] = func(ex *Exec, c *frame, fn *ssa.Function, a []Value) Value {
-		if s, ok := a[0].(string); ok {
-			if p, ok := a[1].(string); ok {
-				return strings.HasSuffix(s, p)
-			}
-		}
-		return smt.StrSuffixOf(toTermAuto(a[1]), toTermAuto(a[0]))
+		return strHasSuffix(a[0], a[1])
 	}
 	intercepts["strings.Contains"] = func(ex *Exec, c *frame, fn *ssa.Function, a []Value) Value {
-		if s, ok := a[0].(string); ok {
-			if p, ok := a[1].(string); ok {
-				return strings.Contains(s, p)
-			}
-		}
-		return smt.StrContains(toTermAuto(a[0]), toTermAuto(a[1]))
+		return strings.Contains(mustStr(a[0]), mustStr(a[1]))
 	}
 	intercepts["strings.Index"] = func(ex *Exec, c *frame, fn *ssa.Function, a []Value) Value {
 		return int64(strings.Index(mustStr(a[0]), mustStr(a[1])))
@@ -278,6 +336,8 @@ func (ex *Exec) decodeOpts(name string, v Value, fn *ssa.Function, idx int) *JSO
 			o.NoVar = f.(bool)
 		case "Finite":
 			o.Finite = f.(bool)
+		case "NoVarKeys":
+			o.NoVarKeys = f.(bool)
 		case "Pool":
 			sl := f.(Slice)
 			for j := 0; j < sl.Len; j++ {
@@ -451,6 +511,11 @@ func (ex *Exec) freeze(v Value, o *Owner, seen map[interface{}]bool) {
 }
 
 func (ex *Exec) sameObject(a, b Value) Value {
+	if la, ok := a.(*Lazy); ok {
+		if lb, ok := b.(*Lazy); ok && la == lb {
+			return true
+		}
+	}
 	ua, ub := unwrapIface(a), unwrapIface(b)
 	switch x := ua.(type) {
 	case *Map:
